@@ -48,31 +48,31 @@ pub fn meta(prop: &str) -> Option<Meta> {
     Some(match prop {
         "C01" => Meta {
             level: "exploration",
-            rule: "histories = vec(op seed, 0..=80) resolved against the reference model (construction, no rejection) + drain epilogue; oracle = invariant over the call history (removals only at a first read; removed vertices bind-linked, bound, not unread). Non-trivial: some call removed a vertex while another present vertex had to survive. Distinct = distinct hash of (N, capacity, concrete call list). Sub-campaign dimension-sweeps (bounded-exhaustive): one scalar dimension at a time is swept completely on a fixed small scenario and judged by the same oracle: vertex capacity 1..=300 and around 512..65536 (thorough: ..1100), number of present vertices 1..=600 (thorough 1100; the heavier oracles sample the counts around 64/128/256/512 in the quick tier) in a store of exactly that many and of 7 more slots, a group of 2..=16 members with 0..=m unread data put before/after binding and read in put order, two ids congruent modulo 2^k (k 6..=12, one to three multiples apart) in a diamond under an odd root, vertex id 0..=1100 (thorough 4200) in a 4201-slot store, alpha index 0..=300 and +-1 around every power of two and ten (thorough: ..70000), every byte value at every offset 0..11 of a datum, datum length 0..=2100 (thorough 9000), groups x members 0..=14 x 2..=16, number of edges 0..=N for N in {1,2,3,4,8,15,16,17,32}, the label character (every scalar value up to U+02FF, then every 997th / 61st; every scenario with room also carries an isolated vertex with an empty unread datum, one with an empty read datum and a grouped leaf with an empty unread datum; white space and control characters included where the oracle parses no text); C08 only: three images above 64 MiB (a 1.5 M-slot store, 5 x 14 MiB and 70 x 1 MiB of data; keys, kids and data bytes compared). When the implementation keeps a vertex the history says is gone (the alive set has left the model: C02's business), the vertex is given a datum and read before the case is closed, after pairs without data were formed in every free group slot: whatever else disappears then was never bind-linked to it or holds an unread datum.",
+            rule: "histories = vec(op seed, 0..=80) resolved against the reference model (construction, no rejection) + drain epilogue; oracle = invariant over the call history (removals only at a first read; removed vertices bind-linked, bound, not unread). Non-trivial: some call removed a vertex while another present vertex had to survive. Distinct = distinct hash of (N, capacity, concrete call list). Sub-campaign dimension-sweeps (bounded-exhaustive): one scalar dimension at a time is swept completely on a fixed small scenario and judged by the same oracle: vertex capacity 1..=300 and around 512..65536 (thorough: ..1100), number of present vertices 1..=600 (thorough 1100; the heavier oracles sample the counts around 64/128/256/512 in the quick tier) in a store of exactly that many and of 7 more slots, a group of 2..=16 members with 0..=m unread data put before/after binding and read in put order, two ids congruent modulo 2^k (k 6..=12, one to three multiples apart) in a diamond under an odd root, vertex id 0..=1100 (thorough 4200) in a 4201-slot store, alpha index 0..=300 and +-1 around every power of two and ten (thorough: ..70000), every byte value at every offset 0..11 of a datum, datum length 0..=2100 (thorough 9000), groups x members 0..=14 x 2..=16, number of edges 0..=N for N in {1,2,3,4,8,15,16,17,32}, the label character (every scalar value up to U+02FF, then every 997th / 61st; every scenario with room also carries an isolated vertex with an empty unread datum, one with an empty read datum and a grouped leaf with an empty unread datum; white space and control characters included where the oracle parses no text); the sweep *pairs*: every PAIR of nine dimensions (capacity, id, alpha index, datum length, one datum byte, edges, label character, group size, unread data) at their boundary values (13..34 capacities, 22 ids, 18 indices, 26 lengths, 7 bytes, 12 edge counts, 15 characters, 5 sizes, 5 counts; the quick tier shortens the capacity and length lists, C09 takes pairs in the thorough tier only) on one composite scenario, the other seven at a default; C08 only: three images above 64 MiB (a 1.5 M-slot store, 5 x 14 MiB and 70 x 1 MiB of data; keys, kids and data bytes compared). When the implementation keeps a vertex the history says is gone (the alive set has left the model: C02's business), the vertex is given a datum and read before the case is closed, after pairs without data were formed in every free group slot: whatever else disappears then was never bind-linked to it or holds an unread datum.",
             assumptions: gc_assume,
             subs: vec![Sub { id: "gcmodel", quick: 64_000, thorough: 3_200_000 }, Sub { id: "gcmodel-fast", quick: 0, thorough: 800_000 }, Sub { id: "dimension-sweeps", quick: 8, thorough: 16 }],
         },
         "C02" => Meta {
             level: "exploration",
-            rule: "same generator as C01 (profiles gc-orders, overwrite, readd, limit-edge); oracle = keys() equals the alive set of the reference model after every call, no in-limit panic of add/bind/put/data, through the drain epilogue (every free group slot probed simultaneously). Non-trivial: a group died and the history has put-before-bind carried into a group, an overwrite of an unread datum, a put after a read, a re-add of a grouped vertex, a group with >=2 unread data, or >=2 groups died. Sub-campaign dimension-sweeps (bounded-exhaustive): one scalar dimension at a time is swept completely on a fixed small scenario and judged by the same oracle: vertex capacity 1..=300 and around 512..65536 (thorough: ..1100), number of present vertices 1..=600 (thorough 1100; the heavier oracles sample the counts around 64/128/256/512 in the quick tier) in a store of exactly that many and of 7 more slots, a group of 2..=16 members with 0..=m unread data put before/after binding and read in put order, two ids congruent modulo 2^k (k 6..=12, one to three multiples apart) in a diamond under an odd root, vertex id 0..=1100 (thorough 4200) in a 4201-slot store, alpha index 0..=300 and +-1 around every power of two and ten (thorough: ..70000), every byte value at every offset 0..11 of a datum, datum length 0..=2100 (thorough 9000), groups x members 0..=14 x 2..=16, number of edges 0..=N for N in {1,2,3,4,8,15,16,17,32}, the label character (every scalar value up to U+02FF, then every 997th / 61st; every scenario with room also carries an isolated vertex with an empty unread datum, one with an empty read datum and a grouped leaf with an empty unread datum; white space and control characters included where the oracle parses no text); C08 only: three images above 64 MiB (a 1.5 M-slot store, 5 x 14 MiB and 70 x 1 MiB of data; keys, kids and data bytes compared).",
+            rule: "same generator as C01 (profiles gc-orders, overwrite, readd, limit-edge); oracle = keys() equals the alive set of the reference model after every call, no in-limit panic of add/bind/put/data, through the drain epilogue (every free group slot probed simultaneously). Non-trivial: a group died and the history has put-before-bind carried into a group, an overwrite of an unread datum, a put after a read, a re-add of a grouped vertex, a group with >=2 unread data, or >=2 groups died. Sub-campaign dimension-sweeps (bounded-exhaustive): one scalar dimension at a time is swept completely on a fixed small scenario and judged by the same oracle: vertex capacity 1..=300 and around 512..65536 (thorough: ..1100), number of present vertices 1..=600 (thorough 1100; the heavier oracles sample the counts around 64/128/256/512 in the quick tier) in a store of exactly that many and of 7 more slots, a group of 2..=16 members with 0..=m unread data put before/after binding and read in put order, two ids congruent modulo 2^k (k 6..=12, one to three multiples apart) in a diamond under an odd root, vertex id 0..=1100 (thorough 4200) in a 4201-slot store, alpha index 0..=300 and +-1 around every power of two and ten (thorough: ..70000), every byte value at every offset 0..11 of a datum, datum length 0..=2100 (thorough 9000), groups x members 0..=14 x 2..=16, number of edges 0..=N for N in {1,2,3,4,8,15,16,17,32}, the label character (every scalar value up to U+02FF, then every 997th / 61st; every scenario with room also carries an isolated vertex with an empty unread datum, one with an empty read datum and a grouped leaf with an empty unread datum; white space and control characters included where the oracle parses no text); the sweep *pairs*: every PAIR of nine dimensions (capacity, id, alpha index, datum length, one datum byte, edges, label character, group size, unread data) at their boundary values (13..34 capacities, 22 ids, 18 indices, 26 lengths, 7 bytes, 12 edge counts, 15 characters, 5 sizes, 5 counts; the quick tier shortens the capacity and length lists, C09 takes pairs in the thorough tier only) on one composite scenario, the other seven at a default; C08 only: three images above 64 MiB (a 1.5 M-slot store, 5 x 14 MiB and 70 x 1 MiB of data; keys, kids and data bytes compared).",
             assumptions: gc_assume,
             subs: vec![Sub { id: "gcmodel", quick: 64_000, thorough: 3_200_000 }, Sub { id: "bfs", quick: 8, thorough: 16 }, Sub { id: "gcmodel-fast", quick: 0, thorough: 800_000 }, Sub { id: "dimension-sweeps", quick: 8, thorough: 16 }],
         },
         "C03" => Meta {
             level: "exploration",
-            rule: "generator profile overwrite-heavy; oracle = after every call, for every present vertex kids() as a set equals the model's last-bind map (one entry per label), kid() agrees for every bound label and for 6 probe labels, v_print's data marker agrees, and every data() result equals the most recent put. Non-trivial: a label was rebound or a datum overwritten, and a group died while observed vertices survived. Sub-campaign dimension-sweeps (bounded-exhaustive): one scalar dimension at a time is swept completely on a fixed small scenario and judged by the same oracle: vertex capacity 1..=300 and around 512..65536 (thorough: ..1100), number of present vertices 1..=600 (thorough 1100; the heavier oracles sample the counts around 64/128/256/512 in the quick tier) in a store of exactly that many and of 7 more slots, a group of 2..=16 members with 0..=m unread data put before/after binding and read in put order, two ids congruent modulo 2^k (k 6..=12, one to three multiples apart) in a diamond under an odd root, vertex id 0..=1100 (thorough 4200) in a 4201-slot store, alpha index 0..=300 and +-1 around every power of two and ten (thorough: ..70000), every byte value at every offset 0..11 of a datum, datum length 0..=2100 (thorough 9000), groups x members 0..=14 x 2..=16, number of edges 0..=N for N in {1,2,3,4,8,15,16,17,32}, the label character (every scalar value up to U+02FF, then every 997th / 61st; every scenario with room also carries an isolated vertex with an empty unread datum, one with an empty read datum and a grouped leaf with an empty unread datum; white space and control characters included where the oracle parses no text); C08 only: three images above 64 MiB (a 1.5 M-slot store, 5 x 14 MiB and 70 x 1 MiB of data; keys, kids and data bytes compared).",
+            rule: "generator profile overwrite-heavy; oracle = after every call, for every present vertex kids() as a set equals the model's last-bind map (one entry per label), kid() agrees for every bound label and for 6 probe labels, v_print's data marker agrees, and every data() result equals the most recent put. Non-trivial: a label was rebound or a datum overwritten, and a group died while observed vertices survived. Sub-campaign dimension-sweeps (bounded-exhaustive): one scalar dimension at a time is swept completely on a fixed small scenario and judged by the same oracle: vertex capacity 1..=300 and around 512..65536 (thorough: ..1100), number of present vertices 1..=600 (thorough 1100; the heavier oracles sample the counts around 64/128/256/512 in the quick tier) in a store of exactly that many and of 7 more slots, a group of 2..=16 members with 0..=m unread data put before/after binding and read in put order, two ids congruent modulo 2^k (k 6..=12, one to three multiples apart) in a diamond under an odd root, vertex id 0..=1100 (thorough 4200) in a 4201-slot store, alpha index 0..=300 and +-1 around every power of two and ten (thorough: ..70000), every byte value at every offset 0..11 of a datum, datum length 0..=2100 (thorough 9000), groups x members 0..=14 x 2..=16, number of edges 0..=N for N in {1,2,3,4,8,15,16,17,32}, the label character (every scalar value up to U+02FF, then every 997th / 61st; every scenario with room also carries an isolated vertex with an empty unread datum, one with an empty read datum and a grouped leaf with an empty unread datum; white space and control characters included where the oracle parses no text); the sweep *pairs*: every PAIR of nine dimensions (capacity, id, alpha index, datum length, one datum byte, edges, label character, group size, unread data) at their boundary values (13..34 capacities, 22 ids, 18 indices, 26 lengths, 7 bytes, 12 edge counts, 15 characters, 5 sizes, 5 counts; the quick tier shortens the capacity and length lists, C09 takes pairs in the thorough tier only) on one composite scenario, the other seven at a default; C08 only: three images above 64 MiB (a 1.5 M-slot store, 5 x 14 MiB and 70 x 1 MiB of data; keys, kids and data bytes compared).",
             assumptions: gc_assume,
             subs: vec![Sub { id: "gcmodel", quick: 48_000, thorough: 3_200_000 }, Sub { id: "gcmodel-fast", quick: 0, thorough: 800_000 }, Sub { id: "dimension-sweeps", quick: 8, thorough: 16 }],
         },
         "C04" => Meta {
             level: "exploration",
-            rule: "generator profile readd-heavy; oracle = (i) add on a model-absent id yields a present vertex with no kids (kid() is asked for every label the collected vertex had — the model keeps a graveyard — before and after the add, and for probe labels), no data marker, no data on later reads, others unchanged; (ii) add on a present id leaves the complete observation unchanged and deleting all such adds from the history leaves the whole observation trace (to the end of the epilogue) unchanged; (iii) add never panics. Non-trivial: the history re-adds a grouped vertex or a recycled id with stale content, and a group died. Sub-campaign dimension-sweeps (bounded-exhaustive): one scalar dimension at a time is swept completely on a fixed small scenario and judged by the same oracle: vertex capacity 1..=300 and around 512..65536 (thorough: ..1100), number of present vertices 1..=600 (thorough 1100; the heavier oracles sample the counts around 64/128/256/512 in the quick tier) in a store of exactly that many and of 7 more slots, a group of 2..=16 members with 0..=m unread data put before/after binding and read in put order, two ids congruent modulo 2^k (k 6..=12, one to three multiples apart) in a diamond under an odd root, vertex id 0..=1100 (thorough 4200) in a 4201-slot store, alpha index 0..=300 and +-1 around every power of two and ten (thorough: ..70000), every byte value at every offset 0..11 of a datum, datum length 0..=2100 (thorough 9000), groups x members 0..=14 x 2..=16, number of edges 0..=N for N in {1,2,3,4,8,15,16,17,32}, the label character (every scalar value up to U+02FF, then every 997th / 61st; every scenario with room also carries an isolated vertex with an empty unread datum, one with an empty read datum and a grouped leaf with an empty unread datum; white space and control characters included where the oracle parses no text); C08 only: three images above 64 MiB (a 1.5 M-slot store, 5 x 14 MiB and 70 x 1 MiB of data; keys, kids and data bytes compared).",
+            rule: "generator profile readd-heavy; oracle = (i) add on a model-absent id yields a present vertex with no kids (kid() is asked for every label the collected vertex had — the model keeps a graveyard — before and after the add, and for probe labels), no data marker, no data on later reads, others unchanged; (ii) add on a present id leaves the complete observation unchanged and deleting all such adds from the history leaves the whole observation trace (to the end of the epilogue) unchanged; (iii) add never panics. Non-trivial: the history re-adds a grouped vertex or a recycled id with stale content, and a group died. Sub-campaign dimension-sweeps (bounded-exhaustive): one scalar dimension at a time is swept completely on a fixed small scenario and judged by the same oracle: vertex capacity 1..=300 and around 512..65536 (thorough: ..1100), number of present vertices 1..=600 (thorough 1100; the heavier oracles sample the counts around 64/128/256/512 in the quick tier) in a store of exactly that many and of 7 more slots, a group of 2..=16 members with 0..=m unread data put before/after binding and read in put order, two ids congruent modulo 2^k (k 6..=12, one to three multiples apart) in a diamond under an odd root, vertex id 0..=1100 (thorough 4200) in a 4201-slot store, alpha index 0..=300 and +-1 around every power of two and ten (thorough: ..70000), every byte value at every offset 0..11 of a datum, datum length 0..=2100 (thorough 9000), groups x members 0..=14 x 2..=16, number of edges 0..=N for N in {1,2,3,4,8,15,16,17,32}, the label character (every scalar value up to U+02FF, then every 997th / 61st; every scenario with room also carries an isolated vertex with an empty unread datum, one with an empty read datum and a grouped leaf with an empty unread datum; white space and control characters included where the oracle parses no text); the sweep *pairs*: every PAIR of nine dimensions (capacity, id, alpha index, datum length, one datum byte, edges, label character, group size, unread data) at their boundary values (13..34 capacities, 22 ids, 18 indices, 26 lengths, 7 bytes, 12 edge counts, 15 characters, 5 sizes, 5 counts; the quick tier shortens the capacity and length lists, C09 takes pairs in the thorough tier only) on one composite scenario, the other seven at a default; C08 only: three images above 64 MiB (a 1.5 M-slot store, 5 x 14 MiB and 70 x 1 MiB of data; keys, kids and data bytes compared).",
             assumptions: gc_assume,
             subs: vec![Sub { id: "gcmodel", quick: 48_000, thorough: 3_200_000 }, Sub { id: "gcmodel-fast", quick: 0, thorough: 800_000 }, Sub { id: "dimension-sweeps", quick: 8, thorough: 16 }],
         },
         "C05" => Meta {
             level: "exploration",
-            rule: "generator profile allocator-heavy (next_id with/without add, adds ahead of/behind the allocator, collections, clone, merge, script variables); oracle = every returned id is below the capacity, absent at that moment and never returned before in this lineage; ids created by merge/script were never returned before. next_id is only generated while an absent id at or above the allocator position remains. Non-trivial: >=2 next_id calls plus a collection, clone, merge or explicit add. Sub-campaign dimension-sweeps (bounded-exhaustive): one scalar dimension at a time is swept completely on a fixed small scenario and judged by the same oracle: vertex capacity 1..=300 and around 512..65536 (thorough: ..1100), number of present vertices 1..=600 (thorough 1100; the heavier oracles sample the counts around 64/128/256/512 in the quick tier) in a store of exactly that many and of 7 more slots, a group of 2..=16 members with 0..=m unread data put before/after binding and read in put order, two ids congruent modulo 2^k (k 6..=12, one to three multiples apart) in a diamond under an odd root, vertex id 0..=1100 (thorough 4200) in a 4201-slot store, alpha index 0..=300 and +-1 around every power of two and ten (thorough: ..70000), every byte value at every offset 0..11 of a datum, datum length 0..=2100 (thorough 9000), groups x members 0..=14 x 2..=16, number of edges 0..=N for N in {1,2,3,4,8,15,16,17,32}, the label character (every scalar value up to U+02FF, then every 997th / 61st; every scenario with room also carries an isolated vertex with an empty unread datum, one with an empty read datum and a grouped leaf with an empty unread datum; white space and control characters included where the oracle parses no text); C08 only: three images above 64 MiB (a 1.5 M-slot store, 5 x 14 MiB and 70 x 1 MiB of data; keys, kids and data bytes compared).",
+            rule: "generator profile allocator-heavy (next_id with/without add, adds ahead of/behind the allocator, collections, clone, merge, script variables); oracle = every returned id is below the capacity, absent at that moment and never returned before in this lineage; ids created by merge/script were never returned before. next_id is only generated while an absent id at or above the allocator position remains. Non-trivial: >=2 next_id calls plus a collection, clone, merge or explicit add. Sub-campaign dimension-sweeps (bounded-exhaustive): one scalar dimension at a time is swept completely on a fixed small scenario and judged by the same oracle: vertex capacity 1..=300 and around 512..65536 (thorough: ..1100), number of present vertices 1..=600 (thorough 1100; the heavier oracles sample the counts around 64/128/256/512 in the quick tier) in a store of exactly that many and of 7 more slots, a group of 2..=16 members with 0..=m unread data put before/after binding and read in put order, two ids congruent modulo 2^k (k 6..=12, one to three multiples apart) in a diamond under an odd root, vertex id 0..=1100 (thorough 4200) in a 4201-slot store, alpha index 0..=300 and +-1 around every power of two and ten (thorough: ..70000), every byte value at every offset 0..11 of a datum, datum length 0..=2100 (thorough 9000), groups x members 0..=14 x 2..=16, number of edges 0..=N for N in {1,2,3,4,8,15,16,17,32}, the label character (every scalar value up to U+02FF, then every 997th / 61st; every scenario with room also carries an isolated vertex with an empty unread datum, one with an empty read datum and a grouped leaf with an empty unread datum; white space and control characters included where the oracle parses no text); the sweep *pairs*: every PAIR of nine dimensions (capacity, id, alpha index, datum length, one datum byte, edges, label character, group size, unread data) at their boundary values (13..34 capacities, 22 ids, 18 indices, 26 lengths, 7 bytes, 12 edge counts, 15 characters, 5 sizes, 5 counts; the quick tier shortens the capacity and length lists, C09 takes pairs in the thorough tier only) on one composite scenario, the other seven at a default; C08 only: three images above 64 MiB (a 1.5 M-slot store, 5 x 14 MiB and 70 x 1 MiB of data; keys, kids and data bytes compared).",
             assumptions: gc_assume,
             subs: vec![Sub { id: "gcmodel", quick: 64_000, thorough: 3_200_000 }, Sub { id: "gcmodel-fast", quick: 0, thorough: 800_000 }, Sub { id: "dimension-sweeps", quick: 8, thorough: 16 }],
         },
@@ -84,25 +84,25 @@ pub fn meta(prop: &str) -> Option<Meta> {
         },
         "C07" => Meta {
             level: "exploration",
-            rule: "every call runs in a worker built with AddressSanitizer (quick; thorough adds MemorySanitizer and a libFuzzer+ASan campaign) and debug assertions; a sanitizer report aborts the worker and is reported with the in-flight case. Two generators over N in {1,2,4,16}, capacity 1..40: (1) an in-domain generated history (profiles limit-edge, gc-orders, forest, queries; no call may panic), extended in-domain until a limit is reached exactly, then ONE call that exceeds exactly one limit — id at or above the capacity in add/bind/put/data/kid/kids/slice/inspect/v_print/merge, an (N+1)-th label, a 17th group member — which must panic; (2) anything goes: up to 120 raw calls with ids up to capacity+2, equal/absent bind endpoints, 15th group, clone, slice, slice_some, merge of non-trees (the graph with itself, cyclic right graphs), save+load, exports, inspect, scripts, every call under catch_unwind and the same graph used on after a panic; no expectation but the sanitizer's silence. One anything-goes sequence in 8 starts with the group-exhaustion scenario on a store of 64..600 slots (14 groups on low ids, then 4..23 more pairs of ungrouped vertices bound at the largest ids, then clone, Debug, save+load, slice, reads); a quarter of the raw calls exercise the value types (Hex::from_str on 0..47 hex digits with no / canonical / sparse dashes, Label::from_str on arbitrary characters, concat, tail, ranges, byte_at). Non-trivial: (1) an overrun call was executed after reaching its limit exactly; (2) at least one call panicked and the sequence went on. Sub-campaign dimension-sweeps (bounded-exhaustive): one scalar dimension at a time is swept completely on a fixed small scenario and judged by the same oracle: vertex capacity 1..=300 and around 512..65536 (thorough: ..1100), number of present vertices 1..=600 (thorough 1100; the heavier oracles sample the counts around 64/128/256/512 in the quick tier) in a store of exactly that many and of 7 more slots, a group of 2..=16 members with 0..=m unread data put before/after binding and read in put order, two ids congruent modulo 2^k (k 6..=12, one to three multiples apart) in a diamond under an odd root, vertex id 0..=1100 (thorough 4200) in a 4201-slot store, alpha index 0..=300 and +-1 around every power of two and ten (thorough: ..70000), every byte value at every offset 0..11 of a datum, datum length 0..=2100 (thorough 9000), groups x members 0..=14 x 2..=16, number of edges 0..=N for N in {1,2,3,4,8,15,16,17,32}, the label character (every scalar value up to U+02FF, then every 997th / 61st; every scenario with room also carries an isolated vertex with an empty unread datum, one with an empty read datum and a grouped leaf with an empty unread datum; white space and control characters included where the oracle parses no text); C08 only: three images above 64 MiB (a 1.5 M-slot store, 5 x 14 MiB and 70 x 1 MiB of data; keys, kids and data bytes compared). The 17th member may also arrive through a bind() that repeats an existing (dangling) edge whose target was collected and added again.",
+            rule: "every call runs in a worker built with AddressSanitizer (quick; thorough adds MemorySanitizer and a libFuzzer+ASan campaign) and debug assertions; a sanitizer report aborts the worker and is reported with the in-flight case. Two generators over N in {1,2,4,16}, capacity 1..40: (1) an in-domain generated history (profiles limit-edge, gc-orders, forest, queries; no call may panic), extended in-domain until a limit is reached exactly, then ONE call that exceeds exactly one limit — id at or above the capacity in add/bind/put/data/kid/kids/slice/inspect/v_print/merge, an (N+1)-th label, a 17th group member — which must panic; (2) anything goes: up to 120 raw calls with ids up to capacity+2, equal/absent bind endpoints, 15th group, clone, slice, slice_some, merge of non-trees (the graph with itself, cyclic right graphs), save+load, exports, inspect, scripts, every call under catch_unwind and the same graph used on after a panic; no expectation but the sanitizer's silence. One anything-goes sequence in 8 starts with the group-exhaustion scenario on a store of 64..600 slots (14 groups on low ids, then 4..23 more pairs of ungrouped vertices bound at the largest ids, then clone, Debug, save+load, slice, reads); a quarter of the raw calls exercise the value types (Hex::from_str on 0..47 hex digits with no / canonical / sparse dashes, Label::from_str on arbitrary characters, concat, tail, ranges, byte_at). Non-trivial: (1) an overrun call was executed after reaching its limit exactly; (2) at least one call panicked and the sequence went on. Sub-campaign dimension-sweeps (bounded-exhaustive): one scalar dimension at a time is swept completely on a fixed small scenario and judged by the same oracle: vertex capacity 1..=300 and around 512..65536 (thorough: ..1100), number of present vertices 1..=600 (thorough 1100; the heavier oracles sample the counts around 64/128/256/512 in the quick tier) in a store of exactly that many and of 7 more slots, a group of 2..=16 members with 0..=m unread data put before/after binding and read in put order, two ids congruent modulo 2^k (k 6..=12, one to three multiples apart) in a diamond under an odd root, vertex id 0..=1100 (thorough 4200) in a 4201-slot store, alpha index 0..=300 and +-1 around every power of two and ten (thorough: ..70000), every byte value at every offset 0..11 of a datum, datum length 0..=2100 (thorough 9000), groups x members 0..=14 x 2..=16, number of edges 0..=N for N in {1,2,3,4,8,15,16,17,32}, the label character (every scalar value up to U+02FF, then every 997th / 61st; every scenario with room also carries an isolated vertex with an empty unread datum, one with an empty read datum and a grouped leaf with an empty unread datum; white space and control characters included where the oracle parses no text); the sweep *pairs*: every PAIR of nine dimensions (capacity, id, alpha index, datum length, one datum byte, edges, label character, group size, unread data) at their boundary values (13..34 capacities, 22 ids, 18 indices, 26 lengths, 7 bytes, 12 edge counts, 15 characters, 5 sizes, 5 counts; the quick tier shortens the capacity and length lists, C09 takes pairs in the thorough tier only) on one composite scenario, the other seven at a default; C08 only: three images above 64 MiB (a 1.5 M-slot store, 5 x 14 MiB and 70 x 1 MiB of data; keys, kids and data bytes compared). The 17th member may also arrive through a bind() that repeats an existing (dangling) edge whose target was collected and added again.",
             assumptions: &["claimed for builds with debug assertions (the crate's own bounds checks)", "AddressSanitizer does not report uninitialised reads: the thorough tier adds a MemorySanitizer run", "leak detection is off (emap never drops its elements by design)"],
             subs: vec![Sub { id: "asan-seq", quick: 24_000, thorough: 240_000 }, Sub { id: "msan-seq", quick: 0, thorough: 32_000 }, Sub { id: "dimension-sweeps", quick: 8, thorough: 16 }],
         },
         "C08" => Meta {
             level: "exploration",
-            rule: "history H (<=60 generated calls, all profiles, every N, capacities 2..256) builds g; g' = load(save(g)) through a real file; (i) the complete observation (keys, len, kids in order, v_print, inspect of every vertex, Debug, to_xml, to_dot) of g and g' must be equal; (ii) a generated continuation (<=40 calls; allocator-dependent calls only when H never used the allocator, so that the one permitted difference cannot show) plus the drain epilogue is applied to both and every result, key set and observation must stay equal; (iii) hook snapshots are compared (modulo allocator position, absent slots) only as a recorded trigger. Sub-campaign datum-length-sweep (bounded-exhaustive): a two-vertex graph whose datum has EVERY length 0..=9000 (thorough: 0..=40000) and every length within ±24 of 64 KiB, 128 KiB, 256 KiB and 1 MiB is saved, reloaded and compared (complete observation, datum bytes). Non-trivial: at save time a live group holds an unread datum, a heap-encoded datum (>8 bytes) exists, and the continuation/epilogue collects a group. Sub-campaign dimension-sweeps (bounded-exhaustive): one scalar dimension at a time is swept completely on a fixed small scenario and judged by the same oracle: vertex capacity 1..=300 and around 512..65536 (thorough: ..1100), number of present vertices 1..=600 (thorough 1100; the heavier oracles sample the counts around 64/128/256/512 in the quick tier) in a store of exactly that many and of 7 more slots, a group of 2..=16 members with 0..=m unread data put before/after binding and read in put order, two ids congruent modulo 2^k (k 6..=12, one to three multiples apart) in a diamond under an odd root, vertex id 0..=1100 (thorough 4200) in a 4201-slot store, alpha index 0..=300 and +-1 around every power of two and ten (thorough: ..70000), every byte value at every offset 0..11 of a datum, datum length 0..=2100 (thorough 9000), groups x members 0..=14 x 2..=16, number of edges 0..=N for N in {1,2,3,4,8,15,16,17,32}, the label character (every scalar value up to U+02FF, then every 997th / 61st; every scenario with room also carries an isolated vertex with an empty unread datum, one with an empty read datum and a grouped leaf with an empty unread datum; white space and control characters included where the oracle parses no text); C08 only: three images above 64 MiB (a 1.5 M-slot store, 5 x 14 MiB and 70 x 1 MiB of data; keys, kids and data bytes compared).",
+            rule: "history H (<=60 generated calls, all profiles, every N, capacities 2..256) builds g; g' = load(save(g)) through a real file; (i) the complete observation (keys, len, kids in order, v_print, inspect of every vertex, Debug, to_xml, to_dot) of g and g' must be equal; (ii) a generated continuation (<=40 calls; allocator-dependent calls only when H never used the allocator, so that the one permitted difference cannot show) plus the drain epilogue is applied to both and every result, key set and observation must stay equal; (iii) hook snapshots are compared (modulo allocator position, absent slots) only as a recorded trigger. Sub-campaign datum-length-sweep (bounded-exhaustive): a two-vertex graph whose datum has EVERY length 0..=9000 (thorough: 0..=40000) and every length within ±24 of 64 KiB, 128 KiB, 256 KiB and 1 MiB is saved, reloaded and compared (complete observation, datum bytes). Non-trivial: at save time a live group holds an unread datum, a heap-encoded datum (>8 bytes) exists, and the continuation/epilogue collects a group. Sub-campaign dimension-sweeps (bounded-exhaustive): one scalar dimension at a time is swept completely on a fixed small scenario and judged by the same oracle: vertex capacity 1..=300 and around 512..65536 (thorough: ..1100), number of present vertices 1..=600 (thorough 1100; the heavier oracles sample the counts around 64/128/256/512 in the quick tier) in a store of exactly that many and of 7 more slots, a group of 2..=16 members with 0..=m unread data put before/after binding and read in put order, two ids congruent modulo 2^k (k 6..=12, one to three multiples apart) in a diamond under an odd root, vertex id 0..=1100 (thorough 4200) in a 4201-slot store, alpha index 0..=300 and +-1 around every power of two and ten (thorough: ..70000), every byte value at every offset 0..11 of a datum, datum length 0..=2100 (thorough 9000), groups x members 0..=14 x 2..=16, number of edges 0..=N for N in {1,2,3,4,8,15,16,17,32}, the label character (every scalar value up to U+02FF, then every 997th / 61st; every scenario with room also carries an isolated vertex with an empty unread datum, one with an empty read datum and a grouped leaf with an empty unread datum; white space and control characters included where the oracle parses no text); the sweep *pairs*: every PAIR of nine dimensions (capacity, id, alpha index, datum length, one datum byte, edges, label character, group size, unread data) at their boundary values (13..34 capacities, 22 ids, 18 indices, 26 lengths, 7 bytes, 12 edge counts, 15 characters, 5 sizes, 5 counts; the quick tier shortens the capacity and length lists, C09 takes pairs in the thorough tier only) on one composite scenario, the other seven at a default; C08 only: three images above 64 MiB (a 1.5 M-slot store, 5 x 14 MiB and 70 x 1 MiB of data; keys, kids and data bytes compared).",
             assumptions: &["differential: the implementation is compared with itself across save+load", "the generator is guided by the reference model so that calls stay inside preconditions and limits"],
             subs: vec![Sub { id: "twin", quick: 32_000, thorough: 1_600_000 }, Sub { id: "datum-length-sweep", quick: 8, thorough: 16 }, Sub { id: "dimension-sweeps", quick: 8, thorough: 16 }],
         },
         "C09" => Meta {
             level: "fault_enumeration",
-            rule: "graphs from generated histories (<=50 calls; profiles overwrite-heavy, gc-orders, limit-edge; every N; capacities 2..256) are saved through save(); the complete image must load back (control); then for EVERY cut point 0 <= k < size (thorough: always; quick: every k for images <= 4096 bytes, otherwise the first and last 600 positions plus 1024 evenly spread ones) the file is truncated to k bytes and load() must return Err: never Ok, never a panic. One image in ~100 additionally holds a 1.3 MB datum (image > 1 MiB); images above 256 KiB get the sampled cut points (first/last 600, 1024 evenly spread, and k-1, k, k+1 around every power of two from 4096) in both tiers. Non-trivial image: holds a heap-encoded datum (>8 bytes) and a vertex with >=2 edges. Distinct = distinct (image, k) pairs of non-trivial images. Sub-campaign dimension-sweeps (bounded-exhaustive): one scalar dimension at a time is swept completely on a fixed small scenario and judged by the same oracle: vertex capacity 1..=300 and around 512..65536 (thorough: ..1100), number of present vertices 1..=600 (thorough 1100; the heavier oracles sample the counts around 64/128/256/512 in the quick tier) in a store of exactly that many and of 7 more slots, a group of 2..=16 members with 0..=m unread data put before/after binding and read in put order, two ids congruent modulo 2^k (k 6..=12, one to three multiples apart) in a diamond under an odd root, vertex id 0..=1100 (thorough 4200) in a 4201-slot store, alpha index 0..=300 and +-1 around every power of two and ten (thorough: ..70000), every byte value at every offset 0..11 of a datum, datum length 0..=2100 (thorough 9000), groups x members 0..=14 x 2..=16, number of edges 0..=N for N in {1,2,3,4,8,15,16,17,32}, the label character (every scalar value up to U+02FF, then every 997th / 61st; every scenario with room also carries an isolated vertex with an empty unread datum, one with an empty read datum and a grouped leaf with an empty unread datum; white space and control characters included where the oracle parses no text); C08 only: three images above 64 MiB (a 1.5 M-slot store, 5 x 14 MiB and 70 x 1 MiB of data; keys, kids and data bytes compared). The save path holds an older checkpoint beforehand — a longer file of other content, or a complete valid image of another graph written by save() itself (once or twice) — in a directory of its own: a cut image must not be answered from anything else.",
+            rule: "graphs from generated histories (<=50 calls; profiles overwrite-heavy, gc-orders, limit-edge; every N; capacities 2..256) are saved through save(); the complete image must load back (control); then for EVERY cut point 0 <= k < size (thorough: always; quick: every k for images <= 4096 bytes, otherwise the first and last 600 positions plus 1024 evenly spread ones) the file is truncated to k bytes and load() must return Err: never Ok, never a panic. One image in ~100 additionally holds a 1.3 MB datum (image > 1 MiB); images above 256 KiB get the sampled cut points (first/last 600, 1024 evenly spread, and k-1, k, k+1 around every power of two from 4096) in both tiers. Non-trivial image: holds a heap-encoded datum (>8 bytes) and a vertex with >=2 edges. Distinct = distinct (image, k) pairs of non-trivial images. Sub-campaign dimension-sweeps (bounded-exhaustive): one scalar dimension at a time is swept completely on a fixed small scenario and judged by the same oracle: vertex capacity 1..=300 and around 512..65536 (thorough: ..1100), number of present vertices 1..=600 (thorough 1100; the heavier oracles sample the counts around 64/128/256/512 in the quick tier) in a store of exactly that many and of 7 more slots, a group of 2..=16 members with 0..=m unread data put before/after binding and read in put order, two ids congruent modulo 2^k (k 6..=12, one to three multiples apart) in a diamond under an odd root, vertex id 0..=1100 (thorough 4200) in a 4201-slot store, alpha index 0..=300 and +-1 around every power of two and ten (thorough: ..70000), every byte value at every offset 0..11 of a datum, datum length 0..=2100 (thorough 9000), groups x members 0..=14 x 2..=16, number of edges 0..=N for N in {1,2,3,4,8,15,16,17,32}, the label character (every scalar value up to U+02FF, then every 997th / 61st; every scenario with room also carries an isolated vertex with an empty unread datum, one with an empty read datum and a grouped leaf with an empty unread datum; white space and control characters included where the oracle parses no text); the sweep *pairs*: every PAIR of nine dimensions (capacity, id, alpha index, datum length, one datum byte, edges, label character, group size, unread data) at their boundary values (13..34 capacities, 22 ids, 18 indices, 26 lengths, 7 bytes, 12 edge counts, 15 characters, 5 sizes, 5 counts; the quick tier shortens the capacity and length lists, C09 takes pairs in the thorough tier only) on one composite scenario, the other seven at a default; C08 only: three images above 64 MiB (a 1.5 M-slot store, 5 x 14 MiB and 70 x 1 MiB of data; keys, kids and data bytes compared). The save path holds an older checkpoint beforehand — a longer file of other content, or a complete valid image of another graph written by save() itself (once or twice) — in a directory of its own: a cut image must not be answered from anything else.",
             assumptions: &["a crash during the non-atomic write leaves a prefix of the image (no torn or reordered blocks)", "load() is called with the N the image was saved with"],
             subs: vec![Sub { id: "prefixes", quick: 800, thorough: 16_000 }, Sub { id: "dimension-sweeps", quick: 8, thorough: 16 }],
         },
         "C10" => Meta {
             level: "exploration",
-            rule: "as C08 with g' = g.clone(), or (half of the cases) g' made by clone_from(): into a bigger store that has vertices of its own, also above g's capacity, or into an older smaller-history store; the continuation always may contain next_id/merge/script variables (the allocator position must be copied). Half of the cases check independence instead: the continuation and the epilogue are applied to one copy only (either direction); the other copy's complete observation must be unchanged and it must then drain exactly as the reference model at the split point says (data bytes, collections). Non-trivial: live group with unread datum and heap datum at clone time, a group dies afterwards, and (same-continuation mode) the continuation calls the allocator. Sub-campaign dimension-sweeps (bounded-exhaustive): one scalar dimension at a time is swept completely on a fixed small scenario and judged by the same oracle: vertex capacity 1..=300 and around 512..65536 (thorough: ..1100), number of present vertices 1..=600 (thorough 1100; the heavier oracles sample the counts around 64/128/256/512 in the quick tier) in a store of exactly that many and of 7 more slots, a group of 2..=16 members with 0..=m unread data put before/after binding and read in put order, two ids congruent modulo 2^k (k 6..=12, one to three multiples apart) in a diamond under an odd root, vertex id 0..=1100 (thorough 4200) in a 4201-slot store, alpha index 0..=300 and +-1 around every power of two and ten (thorough: ..70000), every byte value at every offset 0..11 of a datum, datum length 0..=2100 (thorough 9000), groups x members 0..=14 x 2..=16, number of edges 0..=N for N in {1,2,3,4,8,15,16,17,32}, the label character (every scalar value up to U+02FF, then every 997th / 61st; every scenario with room also carries an isolated vertex with an empty unread datum, one with an empty read datum and a grouped leaf with an empty unread datum; white space and control characters included where the oracle parses no text); C08 only: three images above 64 MiB (a 1.5 M-slot store, 5 x 14 MiB and 70 x 1 MiB of data; keys, kids and data bytes compared).",
+            rule: "as C08 with g' = g.clone(), or (half of the cases) g' made by clone_from(): into a bigger store that has vertices of its own, also above g's capacity, or into an older smaller-history store; the continuation always may contain next_id/merge/script variables (the allocator position must be copied). Half of the cases check independence instead: the continuation and the epilogue are applied to one copy only (either direction); the other copy's complete observation must be unchanged and it must then drain exactly as the reference model at the split point says (data bytes, collections). Non-trivial: live group with unread datum and heap datum at clone time, a group dies afterwards, and (same-continuation mode) the continuation calls the allocator. Sub-campaign dimension-sweeps (bounded-exhaustive): one scalar dimension at a time is swept completely on a fixed small scenario and judged by the same oracle: vertex capacity 1..=300 and around 512..65536 (thorough: ..1100), number of present vertices 1..=600 (thorough 1100; the heavier oracles sample the counts around 64/128/256/512 in the quick tier) in a store of exactly that many and of 7 more slots, a group of 2..=16 members with 0..=m unread data put before/after binding and read in put order, two ids congruent modulo 2^k (k 6..=12, one to three multiples apart) in a diamond under an odd root, vertex id 0..=1100 (thorough 4200) in a 4201-slot store, alpha index 0..=300 and +-1 around every power of two and ten (thorough: ..70000), every byte value at every offset 0..11 of a datum, datum length 0..=2100 (thorough 9000), groups x members 0..=14 x 2..=16, number of edges 0..=N for N in {1,2,3,4,8,15,16,17,32}, the label character (every scalar value up to U+02FF, then every 997th / 61st; every scenario with room also carries an isolated vertex with an empty unread datum, one with an empty read datum and a grouped leaf with an empty unread datum; white space and control characters included where the oracle parses no text); the sweep *pairs*: every PAIR of nine dimensions (capacity, id, alpha index, datum length, one datum byte, edges, label character, group size, unread data) at their boundary values (13..34 capacities, 22 ids, 18 indices, 26 lengths, 7 bytes, 12 edge counts, 15 characters, 5 sizes, 5 counts; the quick tier shortens the capacity and length lists, C09 takes pairs in the thorough tier only) on one composite scenario, the other seven at a default; C08 only: three images above 64 MiB (a 1.5 M-slot store, 5 x 14 MiB and 70 x 1 MiB of data; keys, kids and data bytes compared).",
             assumptions: &["differential: original vs clone", "the generator is guided by the reference model"],
             subs: vec![Sub { id: "twin", quick: 32_000, thorough: 1_600_000 }, Sub { id: "dimension-sweeps", quick: 8, thorough: 16 }],
         },
@@ -120,13 +120,13 @@ pub fn meta(prop: &str) -> Option<Meta> {
         },
         "C13" => Meta {
             level: "exploration",
-            rule: "graphs: (60%) a direct digraph builder over 1..14 generated ids with up to 40 generated edges (cycles, self-reaching loops through other vertices, shared targets, parallel labels to one target up to N), data placed before/after binding; one builder graph in 16 is a fan (N from {1,2,3,8,15,16,17,32}: a hub with N or N-1 labels onto 2..5 kids plus generated edges); (40%) graphs left behind by generated histories with collections. For EVERY present start vertex whose reachable part is present and has <=14 vertices: slice(v) and slice_some(v,p) with p a generated table over (from,to,label) accepting all / half / none. Oracle: independent BFS on the reference model: Ok, no panic; present vertices of the slice = reachable set under p, under their original ids; accepted edges between kept vertices ⊆ kids(slice) ⊆ edges of the source, no duplicates, no edge to a dropped vertex; the complete observation of the source is unchanged. Termination: a call that recurses without bound kills the worker (reported with the in-flight case); a case running >120 s is reported as non-termination. Distinct non-trivial = distinct (graph, start, predicate) whose reachable part has a cycle or shared target and, for slice_some, where p rejects an edge between kept vertices. Sub-campaign dimension-sweeps (bounded-exhaustive): one scalar dimension at a time is swept completely on a fixed small scenario and judged by the same oracle: vertex capacity 1..=300 and around 512..65536 (thorough: ..1100), number of present vertices 1..=600 (thorough 1100; the heavier oracles sample the counts around 64/128/256/512 in the quick tier) in a store of exactly that many and of 7 more slots, a group of 2..=16 members with 0..=m unread data put before/after binding and read in put order, two ids congruent modulo 2^k (k 6..=12, one to three multiples apart) in a diamond under an odd root, vertex id 0..=1100 (thorough 4200) in a 4201-slot store, alpha index 0..=300 and +-1 around every power of two and ten (thorough: ..70000), every byte value at every offset 0..11 of a datum, datum length 0..=2100 (thorough 9000), groups x members 0..=14 x 2..=16, number of edges 0..=N for N in {1,2,3,4,8,15,16,17,32}, the label character (every scalar value up to U+02FF, then every 997th / 61st; every scenario with room also carries an isolated vertex with an empty unread datum, one with an empty read datum and a grouped leaf with an empty unread datum; white space and control characters included where the oracle parses no text); C08 only: three images above 64 MiB (a 1.5 M-slot store, 5 x 14 MiB and 70 x 1 MiB of data; keys, kids and data bytes compared).",
+            rule: "graphs: (60%) a direct digraph builder over 1..14 generated ids with up to 40 generated edges (cycles, self-reaching loops through other vertices, shared targets, parallel labels to one target up to N), data placed before/after binding; one builder graph in 16 is a fan (N from {1,2,3,8,15,16,17,32}: a hub with N or N-1 labels onto 2..5 kids plus generated edges); (40%) graphs left behind by generated histories with collections. For EVERY present start vertex whose reachable part is present and has <=14 vertices: slice(v) and slice_some(v,p) with p a generated table over (from,to,label) accepting all / half / none. Oracle: independent BFS on the reference model: Ok, no panic; present vertices of the slice = reachable set under p, under their original ids; accepted edges between kept vertices ⊆ kids(slice) ⊆ edges of the source, no duplicates, no edge to a dropped vertex; the complete observation of the source is unchanged. Termination: a call that recurses without bound kills the worker (reported with the in-flight case); a case running >120 s is reported as non-termination. Distinct non-trivial = distinct (graph, start, predicate) whose reachable part has a cycle or shared target and, for slice_some, where p rejects an edge between kept vertices. Sub-campaign dimension-sweeps (bounded-exhaustive): one scalar dimension at a time is swept completely on a fixed small scenario and judged by the same oracle: vertex capacity 1..=300 and around 512..65536 (thorough: ..1100), number of present vertices 1..=600 (thorough 1100; the heavier oracles sample the counts around 64/128/256/512 in the quick tier) in a store of exactly that many and of 7 more slots, a group of 2..=16 members with 0..=m unread data put before/after binding and read in put order, two ids congruent modulo 2^k (k 6..=12, one to three multiples apart) in a diamond under an odd root, vertex id 0..=1100 (thorough 4200) in a 4201-slot store, alpha index 0..=300 and +-1 around every power of two and ten (thorough: ..70000), every byte value at every offset 0..11 of a datum, datum length 0..=2100 (thorough 9000), groups x members 0..=14 x 2..=16, number of edges 0..=N for N in {1,2,3,4,8,15,16,17,32}, the label character (every scalar value up to U+02FF, then every 997th / 61st; every scenario with room also carries an isolated vertex with an empty unread datum, one with an empty read datum and a grouped leaf with an empty unread datum; white space and control characters included where the oracle parses no text); the sweep *pairs*: every PAIR of nine dimensions (capacity, id, alpha index, datum length, one datum byte, edges, label character, group size, unread data) at their boundary values (13..34 capacities, 22 ids, 18 indices, 26 lengths, 7 bytes, 12 edge counts, 15 characters, 5 sizes, 5 counts; the quick tier shortens the capacity and length lists, C09 takes pairs in the thorough tier only) on one composite scenario, the other seven at a default; C08 only: three images above 64 MiB (a 1.5 M-slot store, 5 x 14 MiB and 70 x 1 MiB of data; keys, kids and data bytes compared).",
             assumptions: &["reference model edges; rejected edges between kept vertices are allowed in the slice (the statement does not forbid them)", "watchdog margin: normal cost is microseconds"],
             subs: vec![Sub { id: "digraph", quick: 40_000, thorough: 2_400_000 }, Sub { id: "dimension-sweeps", quick: 8, thorough: 16 }],
         },
         "C14" => Meta {
             level: "exploration",
-            rule: "programs of <=25 ADD/BIND/PUT commands over literal ids and $variables (names of 1..14 characters, families with a common 8-character prefix) are generated from model-guided histories — half of them on a graph that already has a history of <=40 generated calls (collections, recycled ids, one in 4 from the dangling-edge-then-re-add template; one BIND in 4 repeats an existing edge) — and rendered with generated legal formatting (blanks/tabs/newlines around tokens, only blanks before '(', optional ν prefixes, newline-terminated # comments between commands incl. comments containing ';' and parentheses, optional final ';', empty commands, hex in upper/lower case separated by '-', blank or nothing). Well-formed text: graph A = deploy_to(text) and graph B = the direct calls (each variable bound to one next_id() at its first textual use) must have the returned count = number of commands, equal complete observations, and identical traces through the drain epilogue. Half of the cases carry one corruption (character delete/insert/replace, or a structured fault: unknown/lower-case opcode, missing parenthesis, missing argument, non-numeric or overflowing id, odd or non-hex data, label longer than 8, bad α index, missing ';'); an independent strict parser of the documented grammar classifies the corrupted text: well-formed => same equivalence oracle (if in-domain), malformed at command k => Err, no panic, and A equals the first k commands applied directly, unspecified => skipped and counted. Non-trivial: >=3 commands with a variable used twice, a comment and a ν prefix; or a text classified malformed. Sub-campaign dimension-sweeps (bounded-exhaustive): one scalar dimension at a time is swept completely on a fixed small scenario and judged by the same oracle: vertex capacity 1..=300 and around 512..65536 (thorough: ..1100), number of present vertices 1..=600 (thorough 1100; the heavier oracles sample the counts around 64/128/256/512 in the quick tier) in a store of exactly that many and of 7 more slots, a group of 2..=16 members with 0..=m unread data put before/after binding and read in put order, two ids congruent modulo 2^k (k 6..=12, one to three multiples apart) in a diamond under an odd root, vertex id 0..=1100 (thorough 4200) in a 4201-slot store, alpha index 0..=300 and +-1 around every power of two and ten (thorough: ..70000), every byte value at every offset 0..11 of a datum, datum length 0..=2100 (thorough 9000), groups x members 0..=14 x 2..=16, number of edges 0..=N for N in {1,2,3,4,8,15,16,17,32}, the label character (every scalar value up to U+02FF, then every 997th / 61st; every scenario with room also carries an isolated vertex with an empty unread datum, one with an empty read datum and a grouped leaf with an empty unread datum; white space and control characters included where the oracle parses no text); C08 only: three images above 64 MiB (a 1.5 M-slot store, 5 x 14 MiB and 70 x 1 MiB of data; keys, kids and data bytes compared). Variable name families include different spellings of one number (ν1, ν01, ν001, 1, 01) and names differing in case only; faults include non-ASCII digits, full-width letters and a combining mark.",
+            rule: "programs of <=25 ADD/BIND/PUT commands over literal ids and $variables (names of 1..14 characters, families with a common 8-character prefix) are generated from model-guided histories — half of them on a graph that already has a history of <=40 generated calls (collections, recycled ids, one in 4 from the dangling-edge-then-re-add template; one BIND in 4 repeats an existing edge) — and rendered with generated legal formatting (blanks/tabs/newlines around tokens, only blanks before '(', optional ν prefixes, newline-terminated # comments between commands incl. comments containing ';' and parentheses, optional final ';', empty commands, hex in upper/lower case separated by '-', blank or nothing). Well-formed text: graph A = deploy_to(text) and graph B = the direct calls (each variable bound to one next_id() at its first textual use) must have the returned count = number of commands, equal complete observations, and identical traces through the drain epilogue. Half of the cases carry one corruption (character delete/insert/replace, or a structured fault: unknown/lower-case opcode, missing parenthesis, missing argument, non-numeric or overflowing id, odd or non-hex data, label longer than 8, bad α index, missing ';'); an independent strict parser of the documented grammar classifies the corrupted text: well-formed => same equivalence oracle (if in-domain), malformed at command k => Err, no panic, and A equals the first k commands applied directly, unspecified => skipped and counted. Non-trivial: >=3 commands with a variable used twice, a comment and a ν prefix; or a text classified malformed. Sub-campaign dimension-sweeps (bounded-exhaustive): one scalar dimension at a time is swept completely on a fixed small scenario and judged by the same oracle: vertex capacity 1..=300 and around 512..65536 (thorough: ..1100), number of present vertices 1..=600 (thorough 1100; the heavier oracles sample the counts around 64/128/256/512 in the quick tier) in a store of exactly that many and of 7 more slots, a group of 2..=16 members with 0..=m unread data put before/after binding and read in put order, two ids congruent modulo 2^k (k 6..=12, one to three multiples apart) in a diamond under an odd root, vertex id 0..=1100 (thorough 4200) in a 4201-slot store, alpha index 0..=300 and +-1 around every power of two and ten (thorough: ..70000), every byte value at every offset 0..11 of a datum, datum length 0..=2100 (thorough 9000), groups x members 0..=14 x 2..=16, number of edges 0..=N for N in {1,2,3,4,8,15,16,17,32}, the label character (every scalar value up to U+02FF, then every 997th / 61st; every scenario with room also carries an isolated vertex with an empty unread datum, one with an empty read datum and a grouped leaf with an empty unread datum; white space and control characters included where the oracle parses no text); the sweep *pairs*: every PAIR of nine dimensions (capacity, id, alpha index, datum length, one datum byte, edges, label character, group size, unread data) at their boundary values (13..34 capacities, 22 ids, 18 indices, 26 lengths, 7 bytes, 12 edge counts, 15 characters, 5 sizes, 5 counts; the quick tier shortens the capacity and length lists, C09 takes pairs in the thorough tier only) on one composite scenario, the other seven at a default; C08 only: three images above 64 MiB (a 1.5 M-slot store, 5 x 14 MiB and 70 x 1 MiB of data; keys, kids and data bytes compared). Variable name families include different spellings of one number (ν1, ν01, ν001, 1, 01) and names differing in case only; faults include non-ASCII digits, full-width letters and a combining mark.",
             assumptions: &["the strict parser in harness/src/props/script.rs is a faithful reading of the documented grammar; everything it is unsure about is classified unspecified and not judged", "differential: deploy_to vs direct calls"],
             subs: vec![Sub { id: "scriptgen", quick: 48_000, thorough: 2_400_000 }, Sub { id: "dimension-sweeps", quick: 8, thorough: 16 }],
         },
@@ -150,19 +150,19 @@ pub fn meta(prop: &str) -> Option<Meta> {
         },
         "C18" => Meta {
             level: "exploration",
-            rule: "graphs as C13 (digraph builder and histories with collections, never-added slots, dangling edges, data of all lengths incl. empty, labels that need no escaping, capacities 2..256). Oracle: to_xml() parsed with sxd-document and to_dot() parsed with a line grammar of the fixed format: node list = keys() in ascending order (none for absent ids); per node the edge set (label, target) = the model's edges; data = the model's bytes for exactly the vertices that have data. Metamorphic: for graphs without dangling edges a second graph with the same present vertices, edges and data is built differently (other capacity, reversed add/bind/label order, junk created and collected first, other read status) and must print byte-identical XML and DOT; one graph in 16 is wide (a vertex with 12..16 edges under labels from families equal modulo 128/256/case). Sub-campaign datum-length-sweep (bounded-exhaustive): EVERY datum length 0..=9000 (thorough: 0..=40000) and ±24 around 64 KiB, 128 KiB, 256 KiB, 1 MiB on a two-vertex graph, both exports parsed back. Non-trivial: an absent id below the largest present id, a vertex with >=2 edges, and a datum. Sub-campaign dimension-sweeps (bounded-exhaustive): one scalar dimension at a time is swept completely on a fixed small scenario and judged by the same oracle: vertex capacity 1..=300 and around 512..65536 (thorough: ..1100), number of present vertices 1..=600 (thorough 1100; the heavier oracles sample the counts around 64/128/256/512 in the quick tier) in a store of exactly that many and of 7 more slots, a group of 2..=16 members with 0..=m unread data put before/after binding and read in put order, two ids congruent modulo 2^k (k 6..=12, one to three multiples apart) in a diamond under an odd root, vertex id 0..=1100 (thorough 4200) in a 4201-slot store, alpha index 0..=300 and +-1 around every power of two and ten (thorough: ..70000), every byte value at every offset 0..11 of a datum, datum length 0..=2100 (thorough 9000), groups x members 0..=14 x 2..=16, number of edges 0..=N for N in {1,2,3,4,8,15,16,17,32}, the label character (every scalar value up to U+02FF, then every 997th / 61st; every scenario with room also carries an isolated vertex with an empty unread datum, one with an empty read datum and a grouped leaf with an empty unread datum; white space and control characters included where the oracle parses no text); C08 only: three images above 64 MiB (a 1.5 M-slot store, 5 x 14 MiB and 70 x 1 MiB of data; keys, kids and data bytes compared). Data include a family of near-duplicates (one text per length 17/24/40/64 with one middle byte changed); labels include families with a long common prefix that differ in the last character.",
+            rule: "graphs as C13 (digraph builder and histories with collections, never-added slots, dangling edges, data of all lengths incl. empty, labels that need no escaping, capacities 2..256). Oracle: to_xml() parsed with sxd-document and to_dot() parsed with a line grammar of the fixed format: node list = keys() in ascending order (none for absent ids); per node the edge set (label, target) = the model's edges; data = the model's bytes for exactly the vertices that have data. Metamorphic: for graphs without dangling edges a second graph with the same present vertices, edges and data is built differently (other capacity, reversed add/bind/label order, junk created and collected first, other read status) and must print byte-identical XML and DOT; one graph in 16 is wide (a vertex with 12..16 edges under labels from families equal modulo 128/256/case). Sub-campaign datum-length-sweep (bounded-exhaustive): EVERY datum length 0..=9000 (thorough: 0..=40000) and ±24 around 64 KiB, 128 KiB, 256 KiB, 1 MiB on a two-vertex graph, both exports parsed back. Non-trivial: an absent id below the largest present id, a vertex with >=2 edges, and a datum. Sub-campaign dimension-sweeps (bounded-exhaustive): one scalar dimension at a time is swept completely on a fixed small scenario and judged by the same oracle: vertex capacity 1..=300 and around 512..65536 (thorough: ..1100), number of present vertices 1..=600 (thorough 1100; the heavier oracles sample the counts around 64/128/256/512 in the quick tier) in a store of exactly that many and of 7 more slots, a group of 2..=16 members with 0..=m unread data put before/after binding and read in put order, two ids congruent modulo 2^k (k 6..=12, one to three multiples apart) in a diamond under an odd root, vertex id 0..=1100 (thorough 4200) in a 4201-slot store, alpha index 0..=300 and +-1 around every power of two and ten (thorough: ..70000), every byte value at every offset 0..11 of a datum, datum length 0..=2100 (thorough 9000), groups x members 0..=14 x 2..=16, number of edges 0..=N for N in {1,2,3,4,8,15,16,17,32}, the label character (every scalar value up to U+02FF, then every 997th / 61st; every scenario with room also carries an isolated vertex with an empty unread datum, one with an empty read datum and a grouped leaf with an empty unread datum; white space and control characters included where the oracle parses no text); the sweep *pairs*: every PAIR of nine dimensions (capacity, id, alpha index, datum length, one datum byte, edges, label character, group size, unread data) at their boundary values (13..34 capacities, 22 ids, 18 indices, 26 lengths, 7 bytes, 12 edge counts, 15 characters, 5 sizes, 5 counts; the quick tier shortens the capacity and length lists, C09 takes pairs in the thorough tier only) on one composite scenario, the other seven at a default; C08 only: three images above 64 MiB (a 1.5 M-slot store, 5 x 14 MiB and 70 x 1 MiB of data; keys, kids and data bytes compared). Data include a family of near-duplicates (one text per length 17/24/40/64 with one middle byte changed); labels include families with a long common prefix that differ in the last character.",
             assumptions: &["reference model for vertices/edges/data", "DOT line grammar as documented in src/dot.rs"],
             subs: vec![Sub { id: "digraph", quick: 40_000, thorough: 2_400_000 }, Sub { id: "datum-length-sweep", quick: 8, thorough: 16 }, Sub { id: "dimension-sweeps", quick: 8, thorough: 16 }],
         },
         "C20" => Meta {
             level: "exploration",
-            rule: "graphs as C13; for EVERY present start vertex inspect(v) is parsed by indentation into (source, label, target, seen-mark) records: for every vertex reachable from v through present vertices the records with that source must equal its edges exactly once each (what is printed beneath an edge to a collected vertex is not judged); v_print(v) must show Δ exactly when the vertex has data and list exactly its labels; Debug and Display must be equal and contain one block per present vertex (none for absent ids) with exactly its edges and its data bytes. Termination as C13. Distinct non-trivial = distinct (graph, start) whose reachable part has a cycle or a shared target. Sub-campaign dimension-sweeps (bounded-exhaustive): one scalar dimension at a time is swept completely on a fixed small scenario and judged by the same oracle: vertex capacity 1..=300 and around 512..65536 (thorough: ..1100), number of present vertices 1..=600 (thorough 1100; the heavier oracles sample the counts around 64/128/256/512 in the quick tier) in a store of exactly that many and of 7 more slots, a group of 2..=16 members with 0..=m unread data put before/after binding and read in put order, two ids congruent modulo 2^k (k 6..=12, one to three multiples apart) in a diamond under an odd root, vertex id 0..=1100 (thorough 4200) in a 4201-slot store, alpha index 0..=300 and +-1 around every power of two and ten (thorough: ..70000), every byte value at every offset 0..11 of a datum, datum length 0..=2100 (thorough 9000), groups x members 0..=14 x 2..=16, number of edges 0..=N for N in {1,2,3,4,8,15,16,17,32}, the label character (every scalar value up to U+02FF, then every 997th / 61st; every scenario with room also carries an isolated vertex with an empty unread datum, one with an empty read datum and a grouped leaf with an empty unread datum; white space and control characters included where the oracle parses no text); C08 only: three images above 64 MiB (a 1.5 M-slot store, 5 x 14 MiB and 70 x 1 MiB of data; keys, kids and data bytes compared).",
+            rule: "graphs as C13; for EVERY present start vertex inspect(v) is parsed by indentation into (source, label, target, seen-mark) records: for every vertex reachable from v through present vertices the records with that source must equal its edges exactly once each (what is printed beneath an edge to a collected vertex is not judged); v_print(v) must show Δ exactly when the vertex has data and list exactly its labels; Debug and Display must be equal and contain one block per present vertex (none for absent ids) with exactly its edges and its data bytes. Termination as C13. Distinct non-trivial = distinct (graph, start) whose reachable part has a cycle or a shared target. Sub-campaign dimension-sweeps (bounded-exhaustive): one scalar dimension at a time is swept completely on a fixed small scenario and judged by the same oracle: vertex capacity 1..=300 and around 512..65536 (thorough: ..1100), number of present vertices 1..=600 (thorough 1100; the heavier oracles sample the counts around 64/128/256/512 in the quick tier) in a store of exactly that many and of 7 more slots, a group of 2..=16 members with 0..=m unread data put before/after binding and read in put order, two ids congruent modulo 2^k (k 6..=12, one to three multiples apart) in a diamond under an odd root, vertex id 0..=1100 (thorough 4200) in a 4201-slot store, alpha index 0..=300 and +-1 around every power of two and ten (thorough: ..70000), every byte value at every offset 0..11 of a datum, datum length 0..=2100 (thorough 9000), groups x members 0..=14 x 2..=16, number of edges 0..=N for N in {1,2,3,4,8,15,16,17,32}, the label character (every scalar value up to U+02FF, then every 997th / 61st; every scenario with room also carries an isolated vertex with an empty unread datum, one with an empty read datum and a grouped leaf with an empty unread datum; white space and control characters included where the oracle parses no text); the sweep *pairs*: every PAIR of nine dimensions (capacity, id, alpha index, datum length, one datum byte, edges, label character, group size, unread data) at their boundary values (13..34 capacities, 22 ids, 18 indices, 26 lengths, 7 bytes, 12 edge counts, 15 characters, 5 sizes, 5 counts; the quick tier shortens the capacity and length lists, C09 takes pairs in the thorough tier only) on one composite scenario, the other seven at a default; C08 only: three images above 64 MiB (a 1.5 M-slot store, 5 x 14 MiB and 70 x 1 MiB of data; keys, kids and data bytes compared).",
             assumptions: &["reference model for vertices/edges/data", "output formats as produced by src/inspect.rs and src/debug.rs (parsers in harness/src/props/digraph.rs)"],
             subs: vec![Sub { id: "digraph", quick: 40_000, thorough: 2_400_000 }, Sub { id: "dimension-sweeps", quick: 8, thorough: 16 }],
         },
         "C19" => Meta {
             level: "exploration",
-            rule: "two configurations (N from 1..=16, 17, 32; capacity from {2..24,64,256,700}) are drawn; a history (<=60 generated calls incl. next_id, merge of trees, slice, slice_some, clone, clone_from into another store, save+load, + slice_some from every eligible vertex under three predicates + drain epilogue) is generated inside the limits of the smaller one; its complete observation trace after every call (results, keys, kids() in enumeration order, v_print, inspect text of every vertex, Debug text; next_id results, ids created by merge, keys/kids of slices) must be identical (a) on two runs in one process (every HashSet/HashMap gets fresh random keys), (b) for a sample of cases in another process, (c) under the other configuration. Non-trivial: the history contains a merge, slice or next_id, some vertex has >=2 labels, and the two configurations differ. Sub-campaign dimension-sweeps (bounded-exhaustive): one scalar dimension at a time is swept completely on a fixed small scenario and judged by the same oracle: vertex capacity 1..=300 and around 512..65536 (thorough: ..1100), number of present vertices 1..=600 (thorough 1100; the heavier oracles sample the counts around 64/128/256/512 in the quick tier) in a store of exactly that many and of 7 more slots, a group of 2..=16 members with 0..=m unread data put before/after binding and read in put order, two ids congruent modulo 2^k (k 6..=12, one to three multiples apart) in a diamond under an odd root, vertex id 0..=1100 (thorough 4200) in a 4201-slot store, alpha index 0..=300 and +-1 around every power of two and ten (thorough: ..70000), every byte value at every offset 0..11 of a datum, datum length 0..=2100 (thorough 9000), groups x members 0..=14 x 2..=16, number of edges 0..=N for N in {1,2,3,4,8,15,16,17,32}, the label character (every scalar value up to U+02FF, then every 997th / 61st; every scenario with room also carries an isolated vertex with an empty unread datum, one with an empty read datum and a grouped leaf with an empty unread datum; white space and control characters included where the oracle parses no text); C08 only: three images above 64 MiB (a 1.5 M-slot store, 5 x 14 MiB and 70 x 1 MiB of data; keys, kids and data bytes compared).",
+            rule: "two configurations (N from 1..=16, 17, 32; capacity from {2..24,64,256,700}) are drawn; a history (<=60 generated calls incl. next_id, merge of trees, slice, slice_some, clone, clone_from into another store, save+load, + slice_some from every eligible vertex under three predicates + drain epilogue) is generated inside the limits of the smaller one; its complete observation trace after every call (results, keys, kids() in enumeration order, v_print, inspect text of every vertex, Debug text; next_id results, ids created by merge, keys/kids of slices) must be identical (a) on two runs in one process (every HashSet/HashMap gets fresh random keys), (b) for a sample of cases in another process, (c) under the other configuration. Non-trivial: the history contains a merge, slice or next_id, some vertex has >=2 labels, and the two configurations differ. Sub-campaign dimension-sweeps (bounded-exhaustive): one scalar dimension at a time is swept completely on a fixed small scenario and judged by the same oracle: vertex capacity 1..=300 and around 512..65536 (thorough: ..1100), number of present vertices 1..=600 (thorough 1100; the heavier oracles sample the counts around 64/128/256/512 in the quick tier) in a store of exactly that many and of 7 more slots, a group of 2..=16 members with 0..=m unread data put before/after binding and read in put order, two ids congruent modulo 2^k (k 6..=12, one to three multiples apart) in a diamond under an odd root, vertex id 0..=1100 (thorough 4200) in a 4201-slot store, alpha index 0..=300 and +-1 around every power of two and ten (thorough: ..70000), every byte value at every offset 0..11 of a datum, datum length 0..=2100 (thorough 9000), groups x members 0..=14 x 2..=16, number of edges 0..=N for N in {1,2,3,4,8,15,16,17,32}, the label character (every scalar value up to U+02FF, then every 997th / 61st; every scenario with room also carries an isolated vertex with an empty unread datum, one with an empty read datum and a grouped leaf with an empty unread datum; white space and control characters included where the oracle parses no text); the sweep *pairs*: every PAIR of nine dimensions (capacity, id, alpha index, datum length, one datum byte, edges, label character, group size, unread data) at their boundary values (13..34 capacities, 22 ids, 18 indices, 26 lengths, 7 bytes, 12 edge counts, 15 characters, 5 sizes, 5 counts; the quick tier shortens the capacity and length lists, C09 takes pairs in the thorough tier only) on one composite scenario, the other seven at a default; C08 only: three images above 64 MiB (a 1.5 M-slot store, 5 x 14 MiB and 70 x 1 MiB of data; keys, kids and data bytes compared).",
             assumptions: &["differential: the implementation is compared with itself", "image sizes returned by save() are masked (they depend on the capacity by nature)", "exports (to_xml/to_dot) are left to C18"],
             subs: vec![Sub { id: "multi-config", quick: 24_000, thorough: 1_200_000 }, Sub { id: "dimension-sweeps", quick: 8, thorough: 16 }],
         },
